@@ -408,6 +408,17 @@ def fsDump (fs : Fs.T) : String :=
     | .file => s!"f:{pathStr p}:{octStr e.perm}:{e.uid}:{e.gid}:{toHex e.data};"
     | .link => s!"l:{pathStr p}:{toHex e.data};")
 
+def pathHex (p : Fs.Path) : String :=
+  if p.isEmpty then "2f" else toHex (p.foldl (fun acc c => acc ++ 47 :: c) [])
+
+def fsDumpHex (fs : Fs.T) : String :=
+  let sorted := fs.ents.toArray.qsort (fun a b => pathLt a.1 b.1) |>.toList
+  String.join (sorted.map fun (p, e) =>
+    match e.kind with
+    | .dir => s!"d:{pathHex p}:{octStr e.perm}:{e.uid}:{e.gid};"
+    | .file => s!"f:{pathHex p}:{octStr e.perm}:{e.uid}:{e.gid}:{toHex e.data};"
+    | .link => s!"l:{pathHex p}:{toHex e.data};")
+
 def errName : Fs.Errno → String
   | .ENOENT => "ENOENT" | .EEXIST => "EEXIST" | .ENOTDIR => "ENOTDIR" | .EISDIR => "EISDIR"
   | .ENOTEMPTY => "ENOTEMPTY" | .EINVAL => "EINVAL" | .EFBIG => "EFBIG" | .ELOOP => "ELOOP"
@@ -527,11 +538,14 @@ def srvCmd (st : St) : List String → St × String
   | ["ro", v] => match st.srv, v.toNat? with
     | some s, some v => ({ st with srv := some { s with cfg := { s.cfg with readOnly := v == 1 } } }, "ok")
     | _, _ => (st, "bad-op")
+  | ["transfer", v] => match st.srv, v.toNat? with
+    | some s, some v => ({ st with srv := some { s with cfg := { s.cfg with transfer := v } } }, "ok")
+    | _, _ => (st, "bad-op")
   | ["maxfile", v] => match st.srv, v.toInt? with
     | some s, some v => ({ st with srv := some { s with cfg := { s.cfg with maxFileSize := v } } }, "ok")
     | _, _ => (st, "bad-op")
   | ["dump"] => match st.srv with
-    | some s => (st, fsDump s.fs)
+    | some s => (st, fsDumpHex s.fs)
     | none => (st, "bad-op")
   | ["call", now, flavor, uid, gid, aux, prog, vers, proc, args, accept, data] =>
     match st.srv, now.toNat?, flavor.toNat?, uid.toNat?, gid.toNat?, parseNatList aux, prog.toNat?, vers.toNat?, proc.toNat?,
